@@ -80,6 +80,17 @@ Theorem C11_command_status_code :
      c1 = 0 /\ c2 = 0 /\ exists t', command_status_string command_status_named s = Ok t').
 Proof. exact (conj command_status_rows_complete command_status_code). Qed.
 
+(* every text route of an address (String(), %v, %+v, %s, %#v, JSON, inside an unsuccess record and a
+   destination list) of the running code, on the complete grid TON 0..7 x NPI 0..15 x the loaded numbers
+   ("", "0", "00", "000", "+", "+0", "00x", long digit strings, letters ...): one row per grid point, none is a
+   panic, and the model of Address.String returns on each *)
+Theorem C11_address_code :
+  beq_list beq_grid (map (fun r : N * N * N * bytes * N * bytes => let '(_, ton, npi, no, _, _) := r in (ton, npi, no)) address_rows) address_grid = true /\
+  (existsb (beq_bytes [48; 48]) address_numbers = true /\ existsb (beq_bytes []) address_numbers = true /\ existsb (beq_bytes [43]) address_numbers = true) /\
+  (forall n ton npi no cls s, In (n, ton, npi, no, cls, s) address_rows ->
+     cls = 0 /\ exists s', address_string {| a_ton := ton; a_npi := npi; a_no := no |} = Ok s').
+Proof. exact (conj address_rows_complete (conj address_numbers_loaded address_code)). Qed.
+
 (* Address.String, Parse, ReadSequence, ReadCommandStatus, Resp *)
 Theorem C11_address_string : forall a, exists s, address_string a = Ok s.
 Proof. exact address_string_ok. Qed.
